@@ -169,6 +169,7 @@ func c16Polymod(c *Ctx, fn *ssa.Function) *stepMap {
 	in := bitdom.New(c.P.SSA, c.wordBits())
 	var chkPhi *ssa.Phi
 	var chkSym *bitdom.BV
+	W, signed := c.wordBits(), true
 	in.PhiHook = func(phi *ssa.Phi, visit int) (bitdom.Val, bool) {
 		if phi.Parent() != fn {
 			return nil, false
@@ -183,7 +184,18 @@ func c16Polymod(c *Ctx, fn *ssa.Function) *stepMap {
 			return nil, false
 		}
 		if visit == 1 {
-			chkSym = in.SymBV("chk", c.wordBits(), 30, true)
+			// the state variable may be an int or a fixed-width integer wide enough for 30 bits
+			W, signed = c.wordBits(), true
+			if bt, ok := phi.Type().Underlying().(*types.Basic); ok {
+				signed = bt.Info()&types.IsUnsigned == 0
+				switch bt.Kind() {
+				case types.Int32, types.Uint32:
+					W = 32
+				case types.Int64, types.Uint64:
+					W = 64
+				}
+			}
+			chkSym = in.SymBV("chk", W, 30, signed)
 			return chkSym, false
 		}
 		return nil, true
@@ -209,7 +221,7 @@ func c16Polymod(c *Ctx, fn *ssa.Function) *stepMap {
 	}
 	// expected BIP-173 step on the same variables
 	v := vals.A.Elems[0].(*bitdom.BV)
-	exp := make([]bitdom.Poly, c.wordBits())
+	exp := make([]bitdom.Poly, W)
 	for i := range exp {
 		exp[i] = bitdom.Zero()
 	}
@@ -229,7 +241,11 @@ func c16Polymod(c *Ctx, fn *ssa.Function) *stepMap {
 	}
 	good := true
 	detail := ""
-	for k := 0; k < c.wordBits(); k++ {
+	if len(next.Bits) != W {
+		r.Undec("C16.polymod-linear.extract", c.P.Pos(fn.Pos()), "next state has %d bits, the state variable %d", len(next.Bits), W)
+		return nil
+	}
+	for k := 0; k < W; k++ {
 		if !bitdom.Equal(next.Bits[k], exp[k]) {
 			good = false
 			if detail == "" {
